@@ -66,7 +66,7 @@ func runCompletionContainment(p *Prog, r *Report) {
 				return true
 			}
 			f := calleeOf(info, call)
-			if f == nil || f.Name() != "CompletionAtPos" {
+			if f == nil || fname(f) != "CompletionAtPos" {
 				return true
 			}
 			sel, ok := ast.Unparen(call.Fun).(*ast.SelectorExpr)
@@ -108,7 +108,7 @@ func runCompletionContainment(p *Prog, r *Report) {
 						return !hit
 					}
 					cf2 := calleeOf(info, c)
-					if cf2 == nil || cf2.Name() != "Range" {
+					if cf2 == nil || fname(cf2) != "Range" {
 						return true
 					}
 					s2, ok := ast.Unparen(c.Fun).(*ast.SelectorExpr)
